@@ -185,7 +185,13 @@ func (histEngine) execute(sc *Scenario) *Outcome {
 		out.Log = append(out.Log, res.logLines()...)
 		for _, n := range hw.names {
 			out.Log = append(out.Log, fmt.Sprintf("disk %s %s", n, fnv(after[n])))
+			out.measure("file_states", fnv(after[n]))
 		}
+		out.measure("command_lines", fnv(strings.Join(op.Argv, " ")))
+		if len(res.Decisions) > 0 {
+			out.measure("schedule_traces", fnv(fmt.Sprint(schedTrace(res))))
+		}
+		out.measure("clock_minutes", spec.Base.Format("15:04"))
 		for k, v := range res.Fired {
 			out.stat("fired_"+k, v)
 		}
